@@ -10,21 +10,18 @@ import OpcuaModel.Gen.Types
   beyond `fuel`, i.e. Go stack depth), `alloc` (more than `env.limit` slice
   elements requested from `reflect.MakeSlice` / `make` / `append`).
 
-  On the unchanged tree the property is false; every way in which it fails is a
-  finding with a machine-checked witness below, and `C02_repaired_safe` shows that
-  the panics and the hang come from exactly two places: with the two proposed
-  repairs (`fixNegLen`, `fixDims`) *every* byte string decodes into *every* type
-  with outcome value / error / budget exceeded.
+  Since the repairs of C02.variant-neg-len and C02.variant-dims-overflow the
+  decoder never panics and never diverges (`C02_safe`, for every type and every
+  byte string).  What remains false is the memory / depth part of the property:
+  each remaining way in which it fails is a finding with a machine-checked
+  witness below (pre-allocation from a length prefix, array amplification,
+  unbounded nesting).
 -/
 namespace Opcua.Props.C02
 open Opcua Opcua.Codec
 
 /-- the decoder as the real code runs it (optionally with an allocation budget for the memory findings) -/
 def env (limit : Option Nat := none) : Env := { limit := limit, exts := Gen.extObjTypes }
-
-/-- the decoder with the two proposed repairs -/
-def repaired (limit : Option Nat := none) : Env :=
-  { limit := limit, exts := Gen.extObjTypes, fixNegLen := true, fixDims := true }
 
 /-- the result is the failure `f` -/
 def failIs {α : Type} (r : Res α) (f : Fail) : Bool :=
@@ -36,48 +33,36 @@ def isPanicOrDiverge : Fail → Bool
   | .panicNegLen | .panicSlice | .panicIndex | .panicNilValue | .panicNilPtr | .diverge | .illTyped => true
   | _ => false
 
-/-- **Safety of the repaired decoder**, for every call-depth budget, allocation budget, type and input:
-    the outcome is a value, an error, or an exceeded budget — never a panic, never non-termination. -/
-theorem C02_repaired_safe (limit : Option Nat) (fuel : Nat) (t : Ty) (b : Bytes) (a : Nat) :
-    match decode (repaired limit) fuel t ⟨b, a⟩ with
+/-- **Safety of the decoder**, for every call-depth budget, allocation budget, type and input: the outcome is a
+    value, an error, or an exceeded budget — never a panic, never non-termination. -/
+theorem C02_safe (limit : Option Nat) (fuel : Nat) (t : Ty) (b : Bytes) (a : Nat) :
+    match decode (env limit) fuel t ⟨b, a⟩ with
     | .ok _ _ => True
     | .fail f => isPanicOrDiverge f = false := by
-  have := decode_safe (repaired limit) rfl rfl fuel t ⟨b, a⟩
-  cases h : decode (repaired limit) fuel t ⟨b, a⟩ with
+  have := decode_safe (env limit) fuel t ⟨b, a⟩
+  cases h : decode (env limit) fuel t ⟨b, a⟩ with
   | ok v s => trivial
   | fail f =>
     rw [h] at this
     rcases this with rfl | rfl | rfl <;> rfl
-
-/-- **Covering.**  The unchanged decoder (any budgets) returns a value, an error, an exceeded budget, or one of the
-    four outcomes of the two Variant defects (`panicNegLen`; `panicSlice`, `panicIndex`, `diverge` from `split`) —
-    nothing else: the finding signatures below cover every unsafe outcome of the model. -/
-theorem C02_unchanged_outcomes (limit : Option Nat) (fuel : Nat) (t : Ty) (b : Bytes) (a : Nat) :
-    match decode (env limit) fuel t ⟨b, a⟩ with
-    | .ok _ _ => True
-    | .fail f => f = .err ∨ f = .depth ∨ f = .alloc ∨ f = .panicNegLen ∨ f = .panicSlice ∨ f = .panicIndex ∨ f = .diverge := by
-  have := decode_covered (env limit) fuel t ⟨b, a⟩
-  cases h : decode (env limit) fuel t ⟨b, a⟩ with
-  | ok v s => trivial
-  | fail f => rw [h] at this; exact this
 
 /-- the decoder model is a total function and the budgets are the only non-structural exits: without a
     call-depth problem the result does not depend on which larger budget is given — stated for the entry
     point: zero fuel is the only way to get `depth` at the top -/
 theorem C02_depth_zero (limit : Option Nat) (t : Ty) (b : Bytes) : decode (env limit) 0 t ⟨b, 0⟩ = .fail .depth := rfl
 
-/-! ### findings on the unchanged decoder (each witness is replayed on the real code by the runner) -/
+/-! ### repaired defects and remaining findings (each witness is replayed on the real code by the runner) -/
 
-/-- `Variant.Decode([86 fe ff ff ff])`: array length −2 reaches `reflect.MakeSlice` → panic -/
-theorem C02_finding_variant_neg_len :
-    decode (env) 2 .variant ⟨[0x86, 0xfe, 0xff, 0xff, 0xff], 0⟩ = .fail .panicNegLen ∧
-    decode (repaired) 2 .variant ⟨[0x86, 0xfe, 0xff, 0xff, 0xff], 0⟩ = .fail .err := ⟨rfl, rfl⟩
+/-- repaired (was finding C02.variant-neg-len): `Variant.Decode([86 fe ff ff ff])`, array length −2, is an error;
+    it used to reach `reflect.MakeSlice` and panic -/
+theorem C02_fixed_variant_neg_len :
+    decode (env) 2 .variant ⟨[0x86, 0xfe, 0xff, 0xff, 0xff], 0⟩ = .fail .err := rfl
 
-/-- every array length below −1 panics, whatever follows -/
-theorem C02_finding_variant_neg_len_general (mask n : Nat) (rest : Bytes) (fuel : Nat)
+/-- every array length below −1 is an error, whatever the type id and whatever follows -/
+theorem C02_fixed_variant_neg_len_general (mask n : Nat) (rest : Bytes) (fuel : Nat)
     (hm : mask < 256) (ht : 1 ≤ mask % 64 ∧ mask % 64 ≤ 25) (harr : has mask 0x80 = true)
     (hn : 2147483648 ≤ n ∧ n < 4294967295) :
-    decode (env) (fuel + 1) .variant ⟨leBytes 1 mask ++ leBytes 4 n ++ rest, 0⟩ = .fail .panicNegLen := by
+    decode (env) (fuel + 1) .variant ⟨leBytes 1 mask ++ leBytes 4 n ++ rest, 0⟩ = .fail .err := by
   have r1 := reads_readUInt 1 mask (mask_lt hm) (leBytes 4 n ++ rest) 0
   have r2 := reads_readUInt 4 n (by have : (256:Nat)^4 = 4294967296 := by decide
                                     omega) rest 0
@@ -93,17 +78,21 @@ theorem C02_finding_variant_neg_len_general (mask n : Nat) (rest : Bytes) (fuel 
     h1, h2, if_true, env]
   rfl
 
-/-- dimensions [6700417, 641] (product 2^32 + 1 ≡ 1) with array length 1: `split` computes step 0 and loops forever -/
-theorem C02_finding_variant_dims_overflow_hang :
-    decode (env) 2 .variant ⟨[0xc6, 1,0,0,0, 7,0,0,0, 2,0,0,0, 0x81,0x3d,0x66,0x00, 0x81,0x02,0,0], 0⟩ = .fail .diverge ∧
-    decode (repaired) 2 .variant ⟨[0xc6, 1,0,0,0, 7,0,0,0, 2,0,0,0, 0x81,0x3d,0x66,0x00, 0x81,0x02,0,0], 0⟩ = .fail .err :=
-  ⟨rfl, rfl⟩
+/-- repaired (was finding C02.variant-dims-overflow): dimensions [6700417, 641] (product 2^32 + 1) with array length 1
+    are rejected; with the `int32` product the check passed and `split` looped forever with step 0 -/
+theorem C02_fixed_variant_dims_overflow_hang :
+    decode (env) 2 .variant ⟨[0xc6, 1,0,0,0, 7,0,0,0, 2,0,0,0, 0x81,0x3d,0x66,0x00, 0x81,0x02,0,0], 0⟩ = .fail .err := rfl
 
-/-- dimensions [3, 1431655769] (product 2^32 + 11 ≡ 11) with array length 11: `split` takes rows of 3 and slices
-    [9:12] out of 11 elements → panic -/
-theorem C02_finding_variant_dims_overflow_panic :
-    failIs (decode (env) 2 .variant ⟨[0xc3, 11,0,0,0, 1,2,3,4,5,6,7,8,9,10,11, 2,0,0,0, 3,0,0,0, 0x59,0x55,0x55,0x55], 0⟩) .panicSlice = true ∧
-    failIs (decode (repaired) 2 .variant ⟨[0xc3, 11,0,0,0, 1,2,3,4,5,6,7,8,9,10,11, 2,0,0,0, 3,0,0,0, 0x59,0x55,0x55,0x55], 0⟩) .err = true := by
+/-- repaired: dimensions [3, 1431655769] (product 2^32 + 11) with array length 11 are rejected; `split` used to slice
+    [9:12] out of 11 elements and panic -/
+theorem C02_fixed_variant_dims_overflow_panic :
+    failIs (decode (env) 2 .variant ⟨[0xc3, 11,0,0,0, 1,2,3,4,5,6,7,8,9,10,11, 2,0,0,0, 3,0,0,0, 0x59,0x55,0x55,0x55], 0⟩) .err = true := by
+  decide +kernel
+
+/-- repaired: a null array (length −1) cannot have dimensions (their `int32` product could wrap to −1:
+    3·5·17·257·65537 = 2^32 − 1) -/
+theorem C02_fixed_variant_nil_array_dims :
+    failIs (decode (env) 2 .variant ⟨[0xc6, 0xff,0xff,0xff,0xff, 5,0,0,0, 3,0,0,0, 5,0,0,0, 17,0,0,0, 1,1,0,0, 1,0,1,0], 0⟩) .err = true := by
   decide +kernel
 
 /-- `ua.Decode([ff ff ff 7f], *[]*ReadValueID)`: `decodeSlice` asks `reflect.MakeSlice` for 2^31−1 elements before reading any -/
@@ -125,8 +114,7 @@ theorem C02_finding_slice_prealloc_general (l n : Nat) (e : Ty) (rest : Bytes) (
 
 /-- a Variant whose dimensions bit is set: `make([]int32, 2^31−1)` from a 9-byte input -/
 theorem C02_finding_variant_dims_prealloc :
-    decode (env (some 16777216)) 2 .variant ⟨[0xc6, 0,0,0,0, 0xff,0xff,0xff,0x7f], 0⟩ = .fail .alloc ∧
-    decode (repaired (some 16777216)) 2 .variant ⟨[0xc6, 0,0,0,0, 0xff,0xff,0xff,0x7f], 0⟩ = .fail .alloc := ⟨rfl, rfl⟩
+    decode (env (some 16777216)) 2 .variant ⟨[0xc6, 0,0,0,0, 0xff,0xff,0xff,0x7f], 0⟩ = .fail .alloc := rfl
 
 /-- Variant arrays: 65535 elements are requested per 5 bytes of input, and the requests nest
     (10 bytes → 131070 elements; a chain of k headers keeps k·65535 elements alive) -/
